@@ -146,8 +146,14 @@ func c20Ops(min, max int64) []c20Op {
 	for x := min - 1; x <= max+1; x++ {
 		ops = append(ops, c20Op{Op: "FreeID", A: x})
 	}
-	for a := min; a <= max; a++ {
-		for b := a; b <= max; b++ {
+	// every non-negative argument pair around the configured bounds, including arguments outside them and
+	// reversed pairs (the property quantifies over every call; only negative arguments are excluded)
+	lo := min - 2
+	if lo < 0 {
+		lo = 0
+	}
+	for a := lo; a <= max+2; a++ {
+		for b := lo; b <= max+2; b++ {
 			ops = append(ops, c20Op{Op: "Allocate_inRange", A: a, B: b})
 		}
 	}
@@ -234,7 +240,7 @@ func init() {
 		ID: "C20", Level: "model_checking", Run: c20Run,
 		Shards: func(tier string) int { return 16 },
 		Rule: func(tier string) string {
-			return "BFS to fixpoint over the reachable states (live set, scan offset) of the real IDGenerator for every configured range; every operation (Allocate, Allocate_inRange(a,b) for all min<=a<=b<=max, FreeID(x) for all x in [min-1,max+1]) is applied in every state by replaying the shortest path on a fresh allocator; each transition is checked against a live-set model and followed by the closure check (repeated Allocate returns exactly the free ids). States are distinct by (sorted live offsets, scan offset)."
+			return "BFS to fixpoint over the reachable states (live set, scan offset) of the real IDGenerator for every configured range; every operation (Allocate, Allocate_inRange(a,b) for all a,b in [max(0,min-2), max+2] (out-of-bounds and reversed pairs included), FreeID(x) for all x in [min-1,max+1]) is applied in every state by replaying the shortest path on a fresh allocator; each transition is checked against a live-set model and followed by the closure check (repeated Allocate returns exactly the free ids). States are distinct by (sorted live offsets, scan offset)."
 		},
 		Bounds: func(tier string) map[string]any {
 			var l []string
@@ -244,7 +250,7 @@ func init() {
 			return map[string]any{"configurations": l, "depth": "fixpoint (unbounded)"}
 		},
 		Assumptions: []string{
-			"non-negative bounds and in-range arguments to Allocate_inRange (a negative min argument is caller error by the function's contract)",
+			"non-negative bounds and non-negative arguments to Allocate_inRange (a negative argument is caller error by the function's contract)",
 			"two allocators with equal (usedMap, offset, minValue, maxValue) have equal futures (these are all of its fields)",
 		},
 		Finish: func(m *core.Merged, cov map[string]any) {
